@@ -18,6 +18,33 @@ type PropertyConfig struct {
 	Replay   string   `json:"replay,omitempty"`
 	MinUnits int      `json:"min_units"`
 	MinObls  int      `json:"min_obligations"`
+	// Bounded stand-ins: functions outside the verifier's reach, checked by running the real
+	// function over a finite, stated input space. Reported separately, never counted as proved.
+	Bounded []BoundedSpec `json:"bounded,omitempty"`
+}
+
+// BoundedSpec names a bounded check (a test of the replay driver directory of the package).
+type BoundedSpec struct {
+	Pkg      string `json:"pkg"`
+	Run      string `json:"run"`      // test function name
+	Function string `json:"function"` // the function it stands in for
+	Bound    string `json:"bound"`    // the bound, in words
+	Why      string `json:"why"`      // why no contract reaches it
+	LenQuick int    `json:"len_quick,omitempty"`
+	LenThor  int    `json:"len_thorough,omitempty"`
+}
+
+// BoundedResult is what one bounded stand-in covered in this run.
+type BoundedResult struct {
+	Function        string  `json:"function"`
+	Test            string  `json:"test"`
+	Bound           string  `json:"bound"`
+	Why             string  `json:"why_no_contract"`
+	Status          string  `json:"status"` // "ok" | "violation" | "did-not-run"
+	Summary         string  `json:"summary"`
+	WallS           float64 `json:"wall_s"`
+	CountedAsProved bool    `json:"counted_as_proved"`
+	Cmd             string  `json:"cmd"`
 }
 
 // KnownFinding identifies a recorded defect by obligation and input class.
